@@ -267,6 +267,7 @@ func handleCAP(c *Client, e Event) {
 			}
 
 			if isError {
+				c.state.sts.reset()
 				c.receive(&Event{Command: ERROR, Params: []string{
 					fmt.Sprintf("closing connection: strict transport policy provided by server is invalid; possible MITM? config: %#v", sts),
 				}})
